@@ -25,6 +25,10 @@ import (
 	"verifharness/sched"
 )
 
+// strayer is implemented by adapters whose connection silently discards
+// data from other sources (a connected vnet socket): Stray supplies such data.
+type strayer interface{ Stray() error }
+
 type adapter interface {
 	Name() string
 	SetReadDeadline(time.Time) error
@@ -116,6 +120,52 @@ func newVnet() (adapter, error) {
 		func() { _ = rc.Close(); _ = wc.Close(); _ = r.Stop() }}, nil
 }
 
+type vnetConnected struct {
+	connAdapter
+	stray func() error
+}
+
+func (v *vnetConnected) Stray() error { return v.stray() }
+
+func newVnetConnected() (adapter, error) {
+	lf := logging.NewDefaultLoggerFactory()
+	lf.DefaultLogLevel = logging.LogLevelDisabled
+	r, err := vnet.NewRouter(&vnet.RouterConfig{CIDR: "10.0.0.0/24", LoggerFactory: lf})
+	if err != nil {
+		return nil, err
+	}
+	a, _ := vnet.NewNet(&vnet.NetConfig{StaticIPs: []string{"10.0.0.2"}})
+	b, _ := vnet.NewNet(&vnet.NetConfig{StaticIPs: []string{"10.0.0.3"}})
+	x, _ := vnet.NewNet(&vnet.NetConfig{StaticIPs: []string{"10.0.0.4"}})
+	for _, n := range []*vnet.Net{a, b, x} {
+		if err = r.AddNet(n); err != nil {
+			return nil, err
+		}
+	}
+	if err = r.Start(); err != nil {
+		return nil, err
+	}
+	peer := &net.UDPAddr{IP: net.ParseIP("10.0.0.3"), Port: 5000}
+	self := &net.UDPAddr{IP: net.ParseIP("10.0.0.2"), Port: 5000}
+	rc, err := a.DialUDP("udp", &net.UDPAddr{IP: net.ParseIP("10.0.0.2"), Port: 5000}, peer)
+	if err != nil {
+		return nil, err
+	}
+	wc, err := b.ListenUDP("udp", &net.UDPAddr{IP: net.ParseIP("10.0.0.3"), Port: 5000})
+	if err != nil {
+		return nil, err
+	}
+	xc, err := x.ListenUDP("udp", &net.UDPAddr{IP: net.ParseIP("10.0.0.4"), Port: 5000})
+	if err != nil {
+		return nil, err
+	}
+	return &vnetConnected{
+		connAdapter: connAdapter{"vnet.UDPConn(connected)", udpAsConn{rc}, func(p []byte) error { _, err := wc.WriteTo(p, self); return err },
+			func() { _ = rc.Close(); _ = wc.Close(); _ = xc.Close(); _ = r.Stop() }},
+		stray: func() error { _, err := xc.WriteTo([]byte("stray"), self); return err },
+	}, nil
+}
+
 type udpAsConn struct {
 	c interface {
 		ReadFrom([]byte) (int, net.Addr, error)
@@ -165,6 +215,7 @@ const (
 	stInject
 	stRead
 	stWait // wait for the outstanding read (bounded)
+	stStray // data from a source the connection discards (connected sockets only)
 )
 
 type step struct {
@@ -186,6 +237,8 @@ func (s step) String() string {
 		return "inject"
 	case stRead:
 		return "read"
+	case stStray:
+		return "stray"
 	}
 	return "wait"
 }
@@ -293,6 +346,13 @@ func runHistory(a adapter, hist []step, labels func(string)) string {
 				return fmt.Sprintf("VERIF-INFRA: %s: inject failed: %v", a.Name(), err)
 			}
 			injected++
+		case stStray:
+			if sa, ok := a.(strayer); ok {
+				if err := sa.Stray(); err != nil {
+					return fmt.Sprintf("VERIF-INFRA: %s: stray inject failed: %v", a.Name(), err)
+				}
+				labels("stray-datagram")
+			}
 		case stRead:
 			if !outstanding() {
 				launch()
@@ -435,8 +495,10 @@ func genHistory(t *rapid.T) ([]step, map[string]bool) {
 				expired = true // any near deadline has passed by now
 				feat["idle-past-deadline"] = true
 			}
-		case k < 65:
+		case k < 60:
 			h = append(h, step{kind: stInject})
+		case k < 65:
+			h = append(h, step{kind: stStray})
 		case k < 82:
 			h = append(h, step{kind: stRead})
 			if rapid.Bool().Draw(t, "wait") {
@@ -457,7 +519,7 @@ func genHistory(t *rapid.T) ([]step, map[string]bool) {
 	return h, feat
 }
 
-const ruleC10 = "rapid-drawn history of 3..12 steps run in parallel on five adapters (packetio.Buffer, dpipe end, udp listener connection on a real loopback socket, vnet UDPConn behind a router, test.Bridge endpoint with a ticking goroutine): SetReadDeadline(zero | 1 s in the past | +8..30 ms | +10 s), idle 0..40 ms, supply one message, start a read (at most one outstanding), optionally wait for it; real clock, executed under GODEBUG=asynctimerchan=1 and =0; oracle from monotonic timestamps: a timeout is legal only if a non-zero deadline in force during the call had passed when it returned; data is illegal once a read has timed out under the same unchanged deadline (or the deadline passed > 300 ms before the call); an outstanding read is released within 2 s of its unchanged deadline, or by data when none is pending; non-trivial = a deadline expired while no read was pending and was then extended or cleared before the next read, or two reads after one expiry; distinct by hash of the history"
+const ruleC10 = "rapid-drawn history of 3..12 steps run in parallel on six adapters (packetio.Buffer, dpipe end, udp listener connection on a real loopback socket, vnet UDPConn behind a router, a connected (dialed) vnet UDPConn that also receives 'stray' datagrams from a third host, test.Bridge endpoint with a ticking goroutine): SetReadDeadline(zero | 1 s in the past | +8..30 ms | +10 s), idle 0..40 ms, supply one message, start a read (at most one outstanding), optionally wait for it; real clock, executed under GODEBUG=asynctimerchan=1 and =0; oracle from monotonic timestamps: a timeout is legal only if a non-zero deadline in force during the call had passed when it returned; data is illegal once a read has timed out under the same unchanged deadline (or the deadline passed > 300 ms before the call); an outstanding read is released within 2 s of its unchanged deadline, or by data when none is pending; non-trivial = a deadline expired while no read was pending and was then extended or cleared before the next read, or two reads after one expiry; distinct by hash of the history"
 
 func TestC10Deadlines(t *testing.T) {
 	r := ev.New("C10", "deadlines/"+os.Getenv("GODEBUG"), ruleC10)
@@ -481,6 +543,11 @@ func TestC10Deadlines(t *testing.T) {
 			ads = append(ads, v)
 		} else {
 			t.Fatalf("VERIF-INFRA: vnet adapter: %v", err)
+		}
+		if v, err := newVnetConnected(); err == nil {
+			ads = append(ads, v)
+		} else {
+			t.Fatalf("VERIF-INFRA: connected vnet adapter: %v", err)
 		}
 		var mu sync.Mutex
 		seen := map[string]bool{}
